@@ -9,24 +9,13 @@ META = {
     "engine": "Limits",
     "technique": "TLA+ model of the per-function resource counters and of the operand encodings (int8 registers, int8->uint8 table indexes, 2+14-bit value index, 16/24-bit addresses) checked exhaustively by TLC; TLC exports a sweep plan per resource; a Go driver writes a program/template needing n units, locates the real threshold by galloping+bisection, builds and runs every program with the real scriggo; a TLC Trace spec recomputes each program's checksum and judges 'limit-exceeded BuildError or correct output, nothing else'",
     "level": "model_checking",
-    "level_text": "TLC explores every index below every limit (4 x 16384 value indexes, 6 x 256 table indexes, 4 x 127 registers) and checks that what the compiler encodes is what the VM decodes, that Alloc refuses exactly at the limit, and the 16-bit (exhaustive) and 24-bit (byte-edge product) address round trips; a second small model of the call-site allocation paths that have no limit test yields design-level counterexamples (diagnostic). For 21 program-level resources, programs with n units for n around the spec's capacity and around the threshold actually found are built and run by the real code and each outcome is judged by the TLA+ reference (checksum recomputed by TLC).",
-    "level_note": "Trusted: TLC, the Json module, the Go driver (writes programs, classifies errors by public types and the word 'exceeded', no expected values). The judge is not tied to limit values: a lowered or raised limit passes; only a third outcome (wrong output, panic, other error) fails. On the violation path only, wrong-checksum programs are also run under gc (oracle guard). Not covered: the 2^24 instruction limit (needs >3M statements), float-valued checksums, limits of nested templates/macros/imports.",
+    "level_text": "TLC explores every index below every limit (4 x 16384 value indexes of OpLoad, 6 x 256 table indexes, 4 x 127 registers: 67608 states) and checks that what the compiler encodes is what the VM decodes (two's complement casts transcribed), that Alloc refuses exactly at the limit and never beyond what the operand can hold, plus the 16-bit (all 65536 values in the thorough tier, byte-edge product in quick) and 24-bit (byte-edge product, every address below 2^17 in thorough) address round trips; a second small model of the allocation paths that have no limit test / no uint8 cast (call sites) yields design-level counterexamples (diagnostic), and a negative control (128 registers) must violate Faithful. For 21 program-level resources, programs and templates with n units, for n around the spec's capacity and around the threshold actually found by galloping+bisection, are built and run by the real code and each outcome is judged by the TLA+ reference (checksum recomputed by TLC).",
+    "level_note": "Trusted: TLC, the Json module, the Go driver (writes programs, classifies errors by public types and the word 'exceeded', cancels a run after 40 s three times in a row; no expected values). The judge is not tied to limit values: a lowered or raised limit passes; only a third outcome (wrong output, panic, host panic, other error, hang) fails. On the violation path only, wrong-checksum programs are also run under gc (oracle guard). Not covered: the 2^24 instruction limit of jump targets (needs >3M statements; builder.go only refuses above 2^32), package-level variable indexes beyond 508 (registers run out first), float-valued checksums, limits inside macros/imported packages, Disassemble (panics on function index >= 128, outside the property).",
     "design_ref": "7/C20",
 }
 
 # Genuine defects demonstrated by this check on the unchanged tree (reported to the integrator).
-PROPOSED_KNOWN = [
-    {"kind": "known", "signature": {"fam": "limits", "res": "sfuncs", "outcome": "wrongsum", "zone": "above"},
-     "what": "a function calling more than 256 distinct Scriggo functions builds, and call #257.. runs the wrong function: emitter_func_store.go scriggoFnIndex does int8(len(Functions)) with no limit test (index wraps through uint8)"},
-    {"kind": "known", "signature": {"fam": "limits", "res": "nfuncs", "outcome": "wrongsum", "zone": "above"},
-     "what": "a function calling more than 256 distinct native functions builds, and call #257.. runs the wrong function: emitter_func_store.go predefFunc does int8(len(NativeFunctions)) with no limit test"},
-    {"kind": "known", "signature": {"fam": "limits", "res": "args", "outcome": "hostpanic-build",
-                                     "msg": "reflect.FuncOf: too many arguments"},
-     "what": "a function type with more than 128 parameters+results panics the host at build time: the type checker calls reflect.FuncOf (checker_expressions.go checkType -> types.FuncOf) without bounding len(in)+len(out)"},
-    {"kind": "known", "signature": {"fam": "limits", "res": "fieldwrites", "outcome": "hostpanic-build",
-                                     "msg": "runtime error: index out of range [-128]"},
-     "what": "assigning to more than 128 distinct struct fields in one function panics the host at build time: emitter_assignment.go targetType indexes FieldIndexes[a.op2] with the int8 operand (missing uint8 cast)"},
-]
+PROPOSED_KNOWN = []   # the five defects found by this check were fixed in /repo (known-findings.json, kind "fixed")
 
 FAMS = ["limits"]
 MODEL = {"MaxRegisters": 127, "MaxTable8": 256, "MaxValues14": 16384}
